@@ -25,6 +25,7 @@ class ForkCtl:
         self.alive = ctx.Value('i', 0)             # descendants not yet exited
         self.waiting = ctx.Value('i', 0)           # descendants forked but still waiting for a token
         self.seq = ctx.Value('i', 0)
+        self.halt = ctx.Value('i', 0)              # set when the job has seen enough (canaries): every explorer stops at its next path
         self.max_waiting = max_waiting
         self.is_child = False
         self.my_id = None
